@@ -127,7 +127,7 @@ InvSameBytes == phase = "done" /\ Last(Observed).kind = "ok" =>
 InvTryErr == \A i \in 1..Len(hist) : (IsCreate(hist[i]) /\ ~hist[i].res.ok) => (Observed[i].kind \in {"err", "panic"} /\ Observed[i].val = <<>>)
 
 Emit == Complete =>
-  PrintT(ToJson([kind |-> "session", props |-> <<"C06">>, ty |-> ty, steps |-> hist, nt |-> CreateIdx # {},
+  PrintT(ToJson([kind |-> "session", props |-> <<"C06">>, ty |-> ty, steps |-> hist, nt |-> CreateIdx # {}, relcb |-> TRUE,
                  expect |-> [i \in 1..Len(Observed) |-> [kind |-> Observed[i].kind, err |-> Observed[i].err, bytes |-> Observed[i].bytes, cb |-> Observed[i].cb, ret |-> Observed[i].ret,
                                                    val |-> Observed[i].val, judge |-> TRUE, slotfree |-> TRUE, pinerr |-> FALSE]]]))
 =============================================================================
